@@ -3,6 +3,7 @@ import gens_split as G
 import splitcommon as SC
 from props import c05_fmt as FE
 from props import c05_self as SF
+from props import c05_tail as TL
 
 ENGINE = "roundtrip"
 RULE = ("grammar derivations (DESIGN.md section 3; duplicate-free; incl. resolved / unresolved / chained @string references, "
@@ -29,6 +30,13 @@ RULE = ("grammar derivations (DESIGN.md section 3; duplicate-free; incl. resolve
         "the neighbouring entry or of the block itself, as an @string value that is referred to, inside a @preamble; documents in "
         "which every block carries its own warning; the writer's other constants as text; these round trips are continued to a "
         "third and fourth write; "
+        "plus the stream `tail` (props/c05_tail.py): TEXTS WHOSE LAST AND FIRST CHARACTERS ARE BACKSLASHES AND BLANKS in every "
+        "combination - k = 0..4 backslashes followed by m = 0..4 blanks (spaces / tabs / newlines / mixed; carriage returns, form "
+        "feeds, the other str.isspace() characters) in front of the closing delimiter, the mirror image behind the opening one, both, "
+        "and the same tail in front of a nested closing brace, in every host: brace- and quote-enclosed field values and @string "
+        "values (referred to or not), @preamble bodies (raw / quoted / braced), explicit comments, entry keys, bare values, pieces "
+        "of concatenations, field and @string names; every (host, k, m, kind of blank) at the end and at the start in every run, "
+        "each document checked against the grammar before it is emitted; continued to a third and fourth write; "
         "default parse and write stacks; distinct = distinct (document, format); "
         "non-trivial = the document has an entry with a field, or at least two blocks")
 TRUSTED = ["the model side composes Model/Splitter, Model/Interpolate, Model/Enclosing and Model/Writer (op 150)"]
@@ -109,6 +117,8 @@ def generate(rng, tier):
     # THE LIBRARY'S OWN ARTEFACTS AS INPUT (props/c05_self.py): comments that read like the writer's warning about the block next
     # to them, under the default and custom templates; after all other streams
     cases += SF.generate(rng, tier)
+    # TEXTS THAT END / BEGIN IN BACKSLASHES AND BLANKS (props/c05_tail.py), in every host; after all other streams
+    cases += TL.generate(rng, tier, (INDENTS, COLUMNS, SEPS))
     return cases
 
 
@@ -260,7 +270,7 @@ def impl(case):
     # stream selfref: the document is put together here, in the process that has the tree under test, so that the library's
     # default warning text is the one of THAT tree (inp["text"] is the same document as the generating process saw it)
     text = SF.render(inp["parts"]) if inp.get("parts") else inp["text"]
-    deep = case["stream"] == "selfref"
+    deep = case["stream"] in ("selfref", "tail")
 
     snap = []
 
@@ -315,12 +325,24 @@ def impl(case):
     elif deep and (snap[2] != t1 or snap[4] != t1):
         ok, detail = False, "the %s write differs from the first" % ("third" if snap[2] != t1 else "fourth")
     rec["oracle"] = {"ok": ok, "detail": detail[:400]}
+    # known finding K7: a STRIPPED text (entry key, explicit comment, unenclosed value incl. a resolved reference to one) that ends in
+    # a backslash is written directly in front of its closing delimiter.  Only what that explains is attributed to it: the first
+    # parse succeeded, the content (not only the second write) differs, and the FIRST block that differs is one that holds such
+    # a text (everything in front of it is written and read independently of it).  In the stream `tail` the generator also says
+    # which documents contain such a text by construction; in any other document of that stream a text ending in a backslash
+    # after the first parse is a defect of its own.
     def _bs(x):
         return isinstance(x, str) and x.endswith("\\")
-    if not ok and any((type(b).__name__ == "Entry" and (_bs(b.key) or any(_bs(f.value) for f in b.fields))) or
-                      (type(b).__name__ == "String" and _bs(b.value)) or
-                      (type(b).__name__ == "ExplicitComment" and _bs(b.comment)) for b in l1.blocks):
-        rec["oracle"]["known"] = "K7"
+
+    def _k7_block(b):
+        return ((type(b).__name__ == "Entry" and (_bs(b.key) or any(_bs(f.value) for f in b.fields))) or
+                (type(b).__name__ == "String" and _bs(b.value)) or
+                (type(b).__name__ == "ExplicitComment" and _bs(b.comment)))
+    if not ok and not l1.failed_blocks and c1 != c2:
+        i = next((i for i, (a, b) in enumerate(zip(c1, c2)) if a != b), min(len(c1), len(c2)))
+        if i < len(l1.blocks) and _k7_block(l1.blocks[i]) and \
+                (case["stream"] != "tail" or "k7:by-construction" in inp.get("labels", [])):
+            rec["oracle"]["known"] = "K7"
     import re
     if not ok and "known" not in rec["oracle"] and any(type(b).__name__ == "Entry" and not re.fullmatch(r"\w*", b.entry_type) for b in l1.blocks):
         rec["oracle"]["known"] = "K9"
